@@ -55,6 +55,7 @@ type ExecCfg struct {
 	ListGenerated bool     `json:"list_generated,omitempty"`      // the file source also lists (and serves) the committed *.j5s.proto outputs next to their sources
 	RealReader    bool     `json:"real_file_reader,omitempty"`    // real protobuild.fileReader over an in-memory fs.FS (no read faults)
 	RealDeps      bool     `json:"real_dependency_set,omitempty"` // the real internal/source.imageFiles (its map ranges are seeded by pass M) instead of the in-memory stand-in
+	SharedBytes   bool     `json:"shared_source_bytes,omitempty"` // the file source hands out the very slice it stores (no copy), the same one to every PackageSet of the execution: a compiler that edits its input in place spoils later reads
 	OutHandling   uint64   `json:"out_handling,omitempty"`        // 0: returned files are serialised and printed once, in order. Otherwise seeded: order, print-before-serialise (bit 0), everything twice (bit 1), re-examine held results at the end (bit 2)
 	Ops           []Op     `json:"ops"`
 	MaskSites     []string `json:"mask_sites,omitempty"`     // sites forced to identity order
@@ -76,6 +77,8 @@ type execState struct {
 	seen      map[string]bool
 	sig       uint64
 	stats     *Stats
+
+	sharedBytes map[string][]byte // file name -> the one slice every read of this execution gets (cfg.SharedBytes)
 }
 
 func newExecState(cfg ExecCfg, stats *Stats) *execState {
@@ -171,6 +174,19 @@ func (m *memSource) GetLocalFile(_ context.Context, name string) ([]byte, error)
 			return []byte(g), nil
 		}
 		return nil, fmt.Errorf("%s: %w", name, fs.ErrNotExist)
+	}
+	if m.ex != nil && m.ex.cfg.SharedBytes {
+		m.ex.mu.Lock()
+		defer m.ex.mu.Unlock()
+		if m.ex.sharedBytes == nil {
+			m.ex.sharedBytes = map[string][]byte{}
+		}
+		b, ok := m.ex.sharedBytes[name]
+		if !ok {
+			b = []byte(src)
+			m.ex.sharedBytes[name] = b
+		}
+		return b, nil
 	}
 	return []byte(src), nil
 }
@@ -844,6 +860,7 @@ func genExecCfg(p *Program, seed uint64) ExecCfg {
 	cfg.SharedDeps = rng.Bool(0.3)
 	cfg.RealReader = rng.Bool(0.2)
 	cfg.RealDeps = len(p.Deps) > 0 && rng.Bool(0.3)
+	cfg.SharedBytes = !cfg.RealReader && rng.Bool(0.3)
 	cfg.ListGenerated = !cfg.RealReader && rng.Bool(0.2)
 	cfg.Ops = genOps(p, cfg.Mode, rng)
 	if rng.Bool(0.4) {
